@@ -73,6 +73,71 @@ def scenario(arrival):
         srv.shutdown()
 
 
+def negotiate_release_check():
+    """native: the REAL ACSE.negotiate_release with a scripted provider (what receive_pdu returns, in order) and a stub association;
+    what is sent, which flags are set, which terminal event is notified, whether the association is killed"""
+    import types
+    from pynetdicom.acse import ACSE
+    from pynetdicom.pdu_primitives import A_RELEASE, A_ABORT, A_P_ABORT
+
+    def rel(result):
+        r = A_RELEASE()
+        if result:
+            r.result = "affirmative"
+        return r
+    cases = [
+        ("response", True, [rel(True)], ["rq"], "released"), ("response", False, [rel(True)], ["rq"], "released"),
+        ("collision then response, requestor", True, [rel(False), rel(True)], ["rq", "rp"], "released"),
+        ("collision then response, acceptor", False, [rel(False), rel(True)], ["rq", "rp"], "released"),
+        ("peer aborts", True, [A_ABORT()], ["rq"], "aborted"), ("provider aborts", False, [A_P_ABORT()], ["rq"], "aborted"),
+        ("nothing within the ACSE timeout", True, [None], ["rq", "abort:2"], "aborted"),
+        ("collision then nothing, acceptor", False, [rel(False), None], ["rq", "abort:2"], "aborted"),
+    ]
+    for desc, is_requestor, script, want_sent, want_end in cases:
+        sent, waits, evs, killed = [], [], [], []
+        script = list(script)
+
+        def receive_pdu(wait=False, timeout=None):
+            waits.append((wait, timeout))
+            return script.pop(0) if script else None
+
+        def send_pdu(p):
+            n = type(p).__name__
+            sent.append("rq" if n == "A_RELEASE" and p.result is None else "rp" if n == "A_RELEASE" else f"abort:{p.abort_source}")
+        assoc = types.SimpleNamespace(is_requestor=is_requestor, is_acceptor=not is_requestor, is_released=False, is_aborted=False,
+                                      is_established=True, _sent_release=False, acse_timeout=7,
+                                      dul=types.SimpleNamespace(receive_pdu=receive_pdu, send_pdu=send_pdu),
+                                      kill=lambda: killed.append(1), get_handlers=lambda ev: [])
+        acse = ACSE(assoc)
+        import pynetdicom.acse as acse_mod
+        orig = acse_mod.evt.trigger
+        acse_mod.evt.trigger = lambda a, ev, attrs=None: evs.append(ev.name)
+        try:
+            err = None
+            try:
+                acse.negotiate_release()
+            except Exception as e:
+                err = repr(e)
+        finally:
+            acse_mod.evt.trigger = orig
+        end = "released" if assoc.is_released and not assoc.is_aborted else "aborted" if assoc.is_aborted and not assoc.is_released else "neither/both"
+        terminal = [e for e in evs if e in ("EVT_RELEASED", "EVT_ABORTED")]
+        got = dict(sent=sent, end=end, established=assoc.is_established, terminal_events=terminal, killed=len(killed),
+                   waits=waits, exception=err)
+        want = dict(sent=want_sent, end=want_end, established=False, terminal_events=["EVT_RELEASED" if want_end == "released" else "EVT_ABORTED"],
+                    killed=1, waits=None, exception=None)
+        want["waits"] = [(True, 7)] * len(got["waits"]) if all(w == (True, 7) for w in got["waits"]) else "every wait is receive_pdu(wait=True, timeout=acse_timeout)"
+        if got != want:
+            return dict(input={"scenario": desc, "local side is requestor": is_requestor}, observed=got, expected=want)
+    return None
+
+
+if "negotiate_release" in rec.get("id", "") or rec.get("id", "").endswith("cross-check"):
+    _bad = negotiate_release_check()
+    if _bad:
+        done(True, **_bad)
+    if "negotiate_release" in rec.get("id", ""):
+        done(False, note="the real negotiate_release behaved as the contract says on the scripted providers")
 bad = None
 for arrival in ("idle", "during-handler"):
     bad = scenario(arrival)
